@@ -1,0 +1,59 @@
+//go:build verif
+
+// Interface conformance: the contracts of the library's own implementations of
+// the contracted interfaces refine the interface contracts (jobs named
+// `impl<:iface`). This file switches the jobs on and holds the small
+// implementation-side clauses that were added to make them provable
+// (conjoined with the contracts of the other files).
+
+package tchannel
+
+//@ conformance Checksum, message
+
+// ---------------------------------------------------------------------------
+// message: readers only consume (the remaining bytes are a suffix of what was
+// there), as the interface promises.
+// ---------------------------------------------------------------------------
+
+//@ func (s *Span) read(r *typed.ReadBuffer) (err error)
+//@   ensures typed.Suffix(r.remaining, old(r.remaining))
+//@   property C03 C06
+//@ func (m *errorMessage) read(r *typed.ReadBuffer) (err error)
+//@   ensures typed.Suffix(r.remaining, old(r.remaining))
+//@   property C03 C06
+//@ func (m *cancelMessage) read(r *typed.ReadBuffer) (err error)
+//@   ensures typed.Suffix(r.remaining, old(r.remaining))
+//@   property C03 C06
+//@ func (m *callReq) read(r *typed.ReadBuffer) (err error)
+//@   ensures typed.Suffix(r.remaining, old(r.remaining))
+//@   property C03 C06
+//@ func (m *callRes) read(r *typed.ReadBuffer) (err error)
+//@   ensures typed.Suffix(r.remaining, old(r.remaining))
+//@   property C03 C06
+//@ func (m *initMessage) read(r *typed.ReadBuffer) (err error)
+//@   ensures typed.Suffix(r.remaining, old(r.remaining))
+//@   property C03 C06
+
+// message.ID: every message type of the library reports its own id field (the
+// interface contract in verif_contracts.go states it for the handshake types
+// only; now that implementations are checked the rest costs nothing).
+//@ iface message.ID() (id uint32)
+//@   ensures istype(self, *callReq) ==> id == self.(*callReq).id
+//@   ensures istype(self, *callReqContinue) ==> id == self.(*callReqContinue).id
+//@   ensures istype(self, *callRes) ==> id == self.(*callRes).id
+//@   ensures istype(self, *callResContinue) ==> id == self.(*callResContinue).id
+//@   ensures istype(self, *cancelMessage) ==> id == self.(*cancelMessage).id
+//@   ensures istype(self, *pingReq) ==> id == self.(*pingReq).id
+//@   ensures istype(self, *pingRes) ==> id == self.(*pingRes).id
+
+// ---------------------------------------------------------------------------
+// Not switched on yet (see the report): partial repairs that make individual
+// jobs provable.
+// ---------------------------------------------------------------------------
+
+// FramePool: a frame built by NewFrame owns a freshly allocated buffer
+// (disabledFramePool.Get conforms with this; the recycling pools do not: a
+// recycled frame is not `fresh`).
+//@ func NewFrame(payloadCapacity int) (f *Frame)
+//@   ensures fresh(f.buffer)
+//@   property C06 C03
